@@ -1380,3 +1380,81 @@ def if_convert_and_sink_declarations(prog, repo_prefix):
             fn.pop("_stable_locals", None)
         total += changed
     return total
+
+
+def pointer_views_to_subscripts(prog, repo_prefix):
+    """`const T* const p = v.data() + off;` (or `= v.data()`, `= &v[off]`) with every use of p of the form `p[k]`, v a std::vector /
+    std::array designated by an effect-free expression: `p[k]` is replaced by `v[off + k]` (`v[k]`).  The pointer is only another
+    name for a window of the container."""
+    total = 0
+    for fn in _repo_fns(prog, repo_prefix):
+        cands = [v for v in walk(fn["body"]) if v.get("k") == "Var" and re.match(r"^(const )?[\w:<> ,]+ \*\s*(const)?$", v.get("t") or "") and isinstance(v.get("init"), dict) and not v.get("static_local")]
+        if not cands:
+            continue
+        from .model import children as _ch
+        parent = {}
+        for n in walk(fn["body"]):
+            for c in _ch(n):
+                parent[id(c)] = n
+        repl = {}
+        for v in cands:
+            i0 = strip(v["init"])
+            while i0.get("k") in ("ParenExpr", "ImplicitCastExpr") and i0.get("c"):
+                i0 = strip(i0["c"][0])
+            base = off = None
+            if i0.get("k") == "BinaryOperator" and i0.get("op") == "+" and len(i0.get("c", [])) == 2:
+                l = strip(i0["c"][0])
+                if l.get("k") == "CXXMemberCallExpr" and re.match(r"^std::(vector|array)<.*>::data$", l.get("callee", "")):
+                    base, off = l, i0["c"][1]
+            elif i0.get("k") == "CXXMemberCallExpr" and re.match(r"^std::(vector|array)<.*>::data$", i0.get("callee", "")):
+                base, off = i0, None
+            if base is None:
+                continue
+            me = strip(base["c"][0])
+            obj = me["c"][0] if me.get("k") == "MemberExpr" and me.get("c") else None
+            if obj is None or not _effect_free_calls_ok(obj) or (off is not None and not _effect_free_calls_ok(off)):
+                continue
+            # p itself is never written, every use is p[k]
+            uses = [x for x in walk(fn["body"]) if x.get("k") == "DeclRefExpr" and (x.get("ref") or {}).get("did") == v["did"]]
+            subs, ok = [], bool(uses)
+            for u in uses:
+                n, p_ = u, parent.get(id(u))
+                while p_ is not None and p_.get("k") in ("ImplicitCastExpr", "ParenExpr") and len(p_.get("c", [])) == 1:
+                    n, p_ = p_, parent.get(id(p_))
+                if p_ is not None and p_.get("k") == "ArraySubscriptExpr" and p_["c"][0] is n:
+                    subs.append(p_)
+                else:
+                    ok = False
+                    break
+            # the offset's variables are not written in the function (the window does not move)
+            if ok and off is not None:
+                odids = {x["ref"].get("did") for x in walk(off) if x.get("k") == "DeclRefExpr" and isinstance(x.get("ref"), dict)}
+                for x in walk(fn["body"]):
+                    if (x.get("k") == "BinaryOperator" and x.get("op") == "=") or x.get("k") == "CompoundAssignOperator" or (x.get("k") == "UnaryOperator" and x.get("op") in ("++", "--", "post++", "post--", "pre++", "pre--")):
+                        t = strip(x["c"][0])
+                        if t.get("k") == "DeclRefExpr" and (t.get("ref") or {}).get("did") in odids:
+                            ok = False
+            if not ok:
+                continue
+            ctype = re.sub(r"^const\s+", "", (strip(obj).get("t") or "")).strip()
+            for sub in subs:
+                idx = sub["c"][1]
+                index = idx if off is None else {"k": "BinaryOperator", "op": "+", "t": "unsigned long", "l": sub.get("l"), "c": [copy.deepcopy(off), idx]}
+                repl[id(sub)] = {"k": "CXXOperatorCallExpr", "op": "[]", "callee": "%s::operator[]" % ctype, "cmember": True, "cconst": True, "t": sub.get("t"), "l": sub.get("l"), "pointer_view_of": v.get("name"),
+                                 "c": [{"k": "ImplicitCastExpr", "ck": "FunctionToPointerDecay", "t": "", "c": [{"k": "DeclRefExpr", "t": "", "ref": {"did": None, "name": "operator[]", "dk": "CXXMethod"}}]}, copy.deepcopy(obj), index]}
+            total += 1
+        if repl:
+            def pre(n):
+                r = repl.get(id(n))
+                if r is not None:
+                    return r
+                for key in _SUBKEYS + ("var", "condvar"):
+                    if isinstance(n.get(key), dict):
+                        n[key] = pre(n[key])
+                for key in ("c", "decls", "handlers"):
+                    if isinstance(n.get(key), list):
+                        n[key] = [pre(x) if isinstance(x, dict) else x for x in n[key]]
+                return n
+            fn["body"] = pre(fn["body"])
+            fn.pop("_stable_locals", None)
+    return total
